@@ -78,7 +78,7 @@ pub fn sender_sev() -> BoxedStrategy<Sev> {
         2 => (0u16..40).prop_map(Sev::AckFuture),
         1 => any::<u16>().prop_map(Sev::AckRaw),
         1 => (0u16..8).prop_map(Sev::Error),
-        1 => (0u16..8, prop::sample::select(vec![21u16, 45, 63, 65, 127, 129, 255, 500, 507, 508, 509, 511, 512, 513, 600, 1500])).prop_map(|(c, n)| Sev::ErrorLong(c, n)),
+        1 => (0u16..8, prop::sample::select(vec![2u16, 6, 21, 45, 63, 65, 127, 129, 255, 500, 507, 508, 509, 510, 511, 512, 513, 600, 1500])).prop_map(|(c, n)| Sev::ErrorLong(c, n)),
         1 => proptest::collection::vec(any::<u8>(), 0..6).prop_map(Sev::Garbage),
         1 => Just(Sev::Oack),
         1 => any::<u16>().prop_map(Sev::StrayData),
@@ -94,7 +94,7 @@ pub fn receiver_sev() -> BoxedStrategy<Sev> {
         4 => prop_oneof![3 => 0u16..4, 1 => 0u16..1000].prop_map(Sev::DataDup),
         3 => (0u16..6).prop_map(Sev::DataFuture),
         1 => (0u16..8).prop_map(Sev::Error),
-        1 => (0u16..8, prop::sample::select(vec![3u16, 4, 5, 7, 8, 9, 20, 21, 33, 45, 63, 65, 127, 129, 255, 600])).prop_map(|(c, n)| Sev::ErrorLong(c, n)),
+        1 => (0u16..8, prop::sample::select(vec![2u16, 3, 4, 5, 6, 7, 8, 9, 20, 21, 33, 45, 63, 65, 127, 129, 255, 600])).prop_map(|(c, n)| Sev::ErrorLong(c, n)),
         1 => proptest::collection::vec(any::<u8>(), 0..6).prop_map(Sev::Garbage),
         1 => Just(Sev::Oack),
         2 => any::<u16>().prop_map(Sev::StrayAck),
